@@ -39,6 +39,16 @@ impl Ex for WithRawSiginfo {
     }
 }
 
+impl Ex for signal_hook::iterator::exfiltrator::origin::WithOrigin {
+    const RAW: bool = true;
+    fn decode(o: &signal_hook::low_level::siginfo::Origin) -> (i32, u64, bool) {
+        use signal_hook::low_level::siginfo::{Cause, Sent};
+        let sent_by_us = matches!(o.cause, Cause::Sent(Sent::Queue) | Cause::Sent(Sent::TKill) | Cause::Sent(Sent::User));
+        let me = o.process.map_or(false, |p| p.pid == unsafe { libc::getpid() } && p.uid == unsafe { libc::getuid() });
+        (o.signal, 0, sent_by_us && me)
+    }
+}
+
 #[derive(Clone, Copy, PartialEq, Debug)]
 pub enum Mode {
     Wait,
@@ -596,6 +606,26 @@ fn check(log: &[Ev], p: &IP, closed_end: bool) -> Result<u64, String> {
                 }
             }
         }
+        "C17" => {
+            // every origin handed out is that of one of the deliveries: sent by this process itself
+            let mut begun = 0u64;
+            let mut yields = 0u64;
+            for ev in log {
+                match ev.tag {
+                    "deliver_begin" => begun += 1,
+                    "yield" => {
+                        yields += 1;
+                        if ev.b & 1 != 1 {
+                            return Err(format!("C17: an origin reported for signal {} does not carry the facts of any of the deliveries (all were sent by this process itself: cause class sent, own pid and uid)", ev.a));
+                        }
+                        if yields > begun {
+                            return Err("C17: more origins reported than deliveries had begun".into());
+                        }
+                    }
+                    _ => {}
+                }
+            }
+        }
         "C11" => {
             if gave_up {
                 return Err("C11: consumer did not terminate after close (round horizon)".into());
@@ -664,6 +694,16 @@ pub fn scenarios_c07(tier: Tier) -> Vec<Item> {
     p.deliverers = vec![vec![S1, S1]];
     p.refused_readd = Some(100);
     vec![item(build::<WithRawSiginfo>(p), Some(if q { 1 } else { 2 }), "WithRawSiginfo: the consumer scans (all 128 slots) while another thread retries an addition the OS refuses (slot 100 already holds a channel from the first attempt): no operation on released memory")]
+}
+
+/// The schedule part of C17: the origin exfiltrator under deliveries that overlap on several threads.
+pub fn scenarios_c17(tier: Tier) -> Vec<Item> {
+    let q = tier == Tier::Quick;
+    let mut p = ip("origin_wait_deliveries_on_three_threads", "C17", Mode::Wait);
+    p.initial = vec![S1];
+    p.deliverers = vec![vec![S1, S1], vec![S1], vec![S1]];
+    p.nest_on_k = vec![S1];
+    vec![item(build::<signal_hook::iterator::exfiltrator::origin::WithOrigin>(p), Some(if q { 1 } else { 2 }), "WithOrigin: deliveries of one signal whose handlers run on three threads at once (+ one nested in the consumer): every origin that comes out is that of a delivery")]
 }
 
 pub fn scenarios(prop: &str, tier: Tier) -> Vec<Item> {
